@@ -267,6 +267,9 @@ pub struct SemCase {
     /// value passed to set_compression on the hash-identified builder (every configuration must stay correct)
     #[serde(default)]
     pub compression_flag: Option<bool>,
+    /// call the builder's stats() after this many operations (a public query that must leave hashes alone)
+    #[serde(default)]
+    pub stats_after: Option<u8>,
 }
 
 pub struct SemBuilder;
@@ -285,6 +288,10 @@ fn sem_history<const P: u128>(case: &SemCase, exact: bool, st: &mut Stats) -> Ca
     let mut run = SddRun::new(&b, shape.leaves());
     let name = format!("semantic-sdd-builder(GF({}))", P);
     for (i, op) in case.ops.iter().enumerate() {
+        if case.stats_after.map(|k| k as usize == i).unwrap_or(false) {
+            let _ = b.stats();
+            st.bump("stats_called");
+        }
         let Some(out) = run.step(op) else { continue };
         st.bump(&format!("op.{}", out.kind));
         let (p, t) = run.pool[out.idx];
@@ -324,6 +331,26 @@ fn sem_history<const P: u128>(case: &SemCase, exact: bool, st: &mut Stats) -> Ca
         );
     }
     run.pool.push((r, cc.tt()));
+    if case.stats_after.is_some() {
+        let _ = b.stats();
+    }
+    // for a fixed field and weight map a cached hash equals the recomputed one (the defining sum)
+    if exact {
+        for (i, (p, t)) in run.pool.iter().enumerate() {
+            let want = defining_sum::<P>(*t, crate::tt::NV.min(case.vt.to_vtree().num_vars()), b.map());
+            let got = b.cached_semantic_hash(*p).value();
+            ensure!(
+                got == want,
+                "C11/cached-hash-differs-from-recomputed",
+                "{}: pool entry {} denotes {:?}; its cached hash is {} but the defining sum over models is {}",
+                name,
+                i,
+                t,
+                got,
+                want
+            );
+        }
+    }
     // equal functions are never judged different; over the 64-bit field the converse holds too
     let mut eq_pairs = 0u64;
     for i in 0..run.pool.len() {
@@ -378,7 +405,7 @@ pub fn run_sem(case: &SemCase, st: &mut Stats) -> CaseResult {
 impl SubCheckT for SemBuilder {
     type Case = SemCase;
     const NAME: &'static str = "semantic_sdd_builder";
-    const RULE: &'static str = "SemanticSddBuilder over a random vtree (1..5 variables), with set_compression left alone / set to true / set to false, under <=30 operations from {literal, constant, not, and, or, condition, exists} plus compile_cnf (ite/iff/xor/compose are todo!() in that builder and outside the property): over GF(2^64-25) every returned SDD denotes the oracle function and eq(a,b) holds exactly when the truth tables are equal, for all pool pairs (the 32-bit primes are not used here: collisions are expected there by design). Non-trivial: >=4 and/or/exists/condition operations on >=3 variables";
+    const RULE: &'static str = "SemanticSddBuilder over a random vtree (1..5 variables), with set_compression left alone / set to true / set to false, under <=30 operations from {literal, constant, not, and, or, condition, exists} plus compile_cnf (ite/iff/xor/compose are todo!() in that builder and outside the property): over GF(2^64-25) every returned SDD denotes the oracle function and eq(a,b) holds exactly when the truth tables are equal, for all pool pairs, the cached hash of every pool entry equals the defining sum, and a stats() call in the middle of the history changes nothing (the 32-bit primes are not used here: collisions are expected there by design). Non-trivial: >=4 and/or/exists/condition operations on >=3 variables";
     fn cases(tier: Tier) -> u32 {
         tier.pick(6000, 80_000)
     }
@@ -389,13 +416,15 @@ impl SubCheckT for SemBuilder {
             (1u8..=5).prop_flat_map(|nv| clauses_strategy(nv, 6, 0, 3)).prop_map(|clauses| CnfCase { clauses }),
             prop_oneof![2 => Just(None), 5 => (1u16..=32).prop_map(Some)],
             prop_oneof![2 => Just(None), 2 => Just(Some(true)), 1 => Just(Some(false))],
+            proptest::option::weighted(0.5, 0u8..30),
         )
-            .prop_map(|(vt, ops, cnf, table_cap, compression_flag)| SemCase {
+            .prop_map(|(vt, ops, cnf, table_cap, compression_flag, stats_after)| SemCase {
                 vt,
                 ops,
                 cnf,
                 table_cap,
                 compression_flag,
+                stats_after,
             })
             .boxed()
     }
